@@ -369,6 +369,12 @@ def model(draw, max_steps=3, allow_lmi=True, allow_nonsym_lmi=False, allow_parti
                     else:
                         metrics.append(em.expr("sq", grads[-1]))
         meta["init_kind"] = init_kind
+        if len(metrics) >= 2 and draw(st.integers(0, 3)) == 0:
+            # one of several metrics carries a constant term (w * m + c): the multiplier of its 'objective <= metric' constraint
+            # then contributes to the constant of the certificate
+            j = draw(st.integers(0, len(metrics) - 2))
+            metrics[j] = em.expr("lin", [[metrics[j], draw(st.sampled_from([0.5, 0.25, 1]))]], draw(st.sampled_from([0.2, 0.05, 1.0])))
+            meta["tags"].append("metric_with_constant")
         for m in metrics:
             em.emit("metric", m, draw(st.one_of(st.none(), st.none(), st.just("perf"))))
         if len(metrics) > 1:
